@@ -9,9 +9,10 @@
     symbolic conditions, and the empty-memory path of the overlapping-read search.
     NOT proved: states with written memory cells (overlap logic: decided by the history correspondence of C07),
     concatenations (eval_ExprCompose re-evaluates an already evaluated condition; see DESIGN.md section 9) and the operators outside the
-    model (XNotModelled), fuel exhaustion. *)
+    model (XNotModelled).  Fuel (the model's stand-in for Python's recursion depth) is not an input: once eval_expr returns a result,
+    every larger fuel returns the same result (FuelProofs.v), so the theorem speaks about THE result of the evaluation. *)
 From Coq Require Import ZArith List Bool String.
-From Mx Require Import Expr Simp SimpProofs EvalAbs EvalAbsProofs.
+From Mx Require Import Expr Simp SimpProofs EvalAbs EvalAbsProofs FuelProofs.
 Import ListNotations.
 Open Scope Z_scope.
 
@@ -41,3 +42,8 @@ Example C06_shift_consts :
   let e := EOp "a>>" [EOp "<<" [ebx; EInt false 32 3]; ebx] in
   wf false (IdQ sig0) e = true /\ eval_expr 30 st0 e = inl (Ok (EInt false 32 4)).
 Proof. vm_compute. split; reflexivity. Qed.
+
+(** the result does not depend on the fuel *)
+Theorem C06_result_independent_of_fuel : forall f f' s e r r', eval_expr f s e = okx r -> eval_expr f' s e = okx r' -> r = r'.
+Proof. exact eval_expr_runs_agree. Qed.
+Print Assumptions C06_result_independent_of_fuel.
